@@ -138,6 +138,13 @@ func c07Copy(c *eng.Ctx) {
 			c.Check("R1", key+"/recursion-constant", mu.Pos(), used == tested && tested >= 0, "a recursive copy uses the same behaviour as the branch it is on", fmt.Sprintf("branch tests %d, recursion passes %d", tested, used))
 			if tested == beh["EntryCopyBehaviorDeepPreservingLeaves"] {
 				dirs := eng.HasAtom(g, `\.Kind == 0:EntryKind\)$`, true) || eng.HasAtom(g, `\.Kind == 102:EntryKind\)$`, true)
+				if !dirs && !onlyDirKinds(mu) {
+					// any other spelling (`isLeaf := k != Dir && k != Phantom; if !isLeaf`):
+					// on every way into the store one of the two kind tests succeeded
+					dirs, _ = everyPathTo(mu.Block(), 5000, func(p eng.Path) bool {
+						return pathHas(p, `\.Kind == 0:EntryKind\)$`, true) || pathHas(p, `\.Kind == 102:EntryKind\)$`, true)
+					})
+				}
 				c.Check("R1", key+"/leaf-preserving-recurses-on-directories", mu.Pos(), dirs || onlyDirKinds(mu), "leaf-preserving copies recurse only into directory-like children")
 			}
 		case vr == child:
@@ -145,6 +152,11 @@ func c07Copy(c *eng.Ctx) {
 			c.Check("R1", key+"/shares-child", mu.Pos(), ok, "children are shared only by the shallow and leaf-preserving behaviours", fmt.Sprintf("branch tests %d", tested))
 			if tested == beh["EntryCopyBehaviorDeepPreservingLeaves"] {
 				leaf := eng.HasAtom(g, `\.Kind == 0:EntryKind\)$`, false) && eng.HasAtom(g, `\.Kind == 102:EntryKind\)$`, false)
+				if !leaf {
+					leaf, _ = everyPathTo(mu.Block(), 5000, func(p eng.Path) bool {
+						return pathHas(p, `\.Kind == 0:EntryKind\)$`, false) && pathHas(p, `\.Kind == 102:EntryKind\)$`, false)
+					})
+				}
 				c.Check("R1", key+"/shares-only-leaves", mu.Pos(), leaf, "leaf-preserving copies share a child only if it is neither Directory nor PhantomDirectory", eng.AtomsText(g)[:min(200, len(eng.AtomsText(g)))])
 			}
 		default:
@@ -332,7 +344,11 @@ func c07Count(c *eng.Ctx) {
 		rv := eng.RetResults(r)[0]
 		g := eng.Guards(r)
 		if v, ok := eng.ConstInt64(rv); ok {
-			okz := v == 0 && (eng.HasAtom(g, `^\(p0 == nil\)$`, true) || eng.HasAtom(g, `^\(synchronization/core\.EntryKind\)\.synchronizable\(p0\.Kind\)$`, false))
+			_ = g
+			onEvery, _ := everyPathTo(r.Block(), 2000, func(p eng.Path) bool {
+				return pathHas(p, `^\(p0 == nil\)$`, true) || pathHas(p, `^\(synchronization/core\.EntryKind\)\.synchronizable\(p0\.Kind\)$`, false)
+			})
+			okz := v == 0 && onEvery
 			c.Check("R4", "count-zero", r.Pos(), okz, "a constant count is 0 and only for nil or unsynchronizable entries", fmt.Sprint(v))
 			continue
 		}
